@@ -147,6 +147,15 @@ def main():
         streams.append((ti, "main", ins["main"]))
         for bn, b in sorted(ins["blocks"].items()):
             streams.append((ti, "block:" + bn, b))
+    # what the VM pops when a recursion call returns is read from vm/mod.rs of the tree under test
+    try:
+        vmrule = absinstr.vm_return_rule(REPO)
+    except (absinstr.TranslatorError, OSError) as ex:
+        chk.violation("the return path of a recursion call in vm/mod.rs is not recognised by the translator",
+                      {"theorem_or_correspondence": "tools/absinstr.py::vm_return_rule (Instruction::PopLoopFrame arm)", "error": str(ex)}, True)
+        chk.finish()
+    absinstr.set_rule(vmrule)
+    chk.cov["vm_return_rule"] = [list(o) for o in vmrule["ops"]]
     cases = []
     for ti, sn, instrs in streams:
         try:
@@ -241,10 +250,13 @@ def main():
         if ti in seen:
             continue
         seen.add(ti)
-        chk.violation("a control-flow path of the compiled code is not balanced (verified checker rejects the stream)",
-                      {"template": templates[ti][1], "stream": sn, "rejected_at_pc": v[1] if len(v) > 1 else None,
-                       "instruction": instrs[v[1]] if len(v) > 1 and v[1] < len(instrs) else None,
-                       "note": "the template is the failing input: some path through its compiled code discards a frame/capture/auto-escape/operand it did not create or ends unbalanced"})
+        pcb = v[2] if len(v) > 2 else None
+        info = {"template": templates[ti][1], "stream": sn, "rejected_at_pc": pcb,
+                "instruction": instrs[pcb] if pcb is not None and pcb < len(instrs) else None,
+                "note": "the template is the failing input: some path through its compiled code discards a frame/capture/auto-escape/operand it did not create or ends unbalanced"}
+        if len(v) > 5 and v[1] > 0:
+            info["analysis"] = "activation of the recursive loop at pc %d entered by the call before pc %d (%s)" % (v[3], v[4], "capturing" if v[5] else "not capturing")
+        chk.violation("a control-flow path of the compiled code is not balanced (verified checker rejects the stream)", info)
     if not chk.violations and not proofs_ok:
         chk.violation("proof obligations of C05 do not check", {"theorem_or_correspondence": chk.proof["problems"]}, True)
     chk.finish()
